@@ -602,7 +602,7 @@ impl Ctx {
                 Node::Sqrt(a) => ax.push(format!("(=> (>= n{a} 0.0) (and (>= n{i} 0.0) (= (* n{i} n{i}) n{a})))", a = a, i = i)),
                 Node::Uf(name, a) => match name {
                     "exp" | "exp2" => { ax.push(format!("(> n{} 0.0)", i)); ax.push(format!("(= (> n{} 0.0) (> n{} 1.0))", a, i)); }
-                    "tanh" => ax.push(format!("(and (< n{i} 1.0) (> n{i} (- 1.0)) (= (> n{a} 0.0) (> n{i} 0.0)) (= (= n{a} 0.0) (= n{i} 0.0)))", i = i, a = a)),
+                    "tanh" => ax.push(format!("(and (< n{i} 1.0) (> n{i} (- 1.0)) (= (> n{a} 0.0) (> n{i} 0.0)) (= (= n{a} 0.0) (= n{i} 0.0)) (=> (> n{a} 0.0) (< n{i} n{a})) (=> (< n{a} 0.0) (> n{i} n{a})))", i = i, a = a)),
                     "ln" | "log2" | "log10" => {
                         ax.push(format!("(and (= (> n{a} 1.0) (> n{i} 0.0)) (= (= n{a} 1.0) (= n{i} 0.0)))", i = i, a = a));
                         if name == "ln" {
